@@ -276,6 +276,10 @@ class PathLimit(AnalysisError):
     pass
 
 
+class AlwaysRaises(Exception):
+    """An inlined callee raises on every trace: the calling trace ends here."""
+
+
 # ---------------------------------------------------------------------- interpreter
 class Interp:
     def __init__(self, repo, scenario=None, self_attrs=None, hooks=None, inline_depth=4, max_states=128,
@@ -334,6 +338,12 @@ class Interp:
         return done + [(s, ("fall",)) for s in live]
 
     def stmt(self, node, st, frame):
+        try:
+            return self._stmt(node, st, frame)
+        except AlwaysRaises:
+            return [(st, ("raise",))]
+
+    def _stmt(self, node, st, frame):
         if isinstance(node, ast.Expr):
             if isinstance(node.value, (ast.Yield, ast.YieldFrom)):
                 self._yield(node.value, st, frame)
@@ -653,9 +663,13 @@ class Interp:
                 for v in test.values:
                     self.assume(v, polarity, st, frame)
             else:
-                # (a or b) true / (a and b) false: if all but one operand are decided, the last one holds
-                und = [v for v in test.values if self.decide(v, st, frame) is None]
-                if len(und) == 1:
+                # (a or b) true / (a and b) false: the last undecided operand carries the polarity only if every
+                # other operand is decided *neutral* (False for `or`, True for `and`); an operand that already
+                # settles the whole test says nothing about the others.
+                neutral = conj
+                vals = [(v, self.decide(v, st, frame)) for v in test.values]
+                und = [v for v, d in vals if d is None]
+                if len(und) == 1 and all(d is neutral for v, d in vals if d is not None):
                     self.assume(und[0], polarity, st, frame)
             return
         if isinstance(test, ast.Compare) and len(test.ops) == 1:
@@ -1083,7 +1097,7 @@ class Interp:
             return Gen(fst.yields)
         normal = [(s, o[1] if o[0] == "return" else K(None)) for s, o in traces if o[0] in ("return", "fall")]
         if not normal:
-            return Opq("never-returns:" + fn.name)
+            raise AlwaysRaises(fn.name)
         groups = []
         for s, v in normal:
             for g in groups:
